@@ -1,9 +1,38 @@
 (* C05 — Round trip: deserialize after serialize is the identity on values. *)
 From Coq Require Import List String ZArith Bool.
-From AV Require Import Core.Json Deser.Model Ser.Model Ser.RoundTrip Ser.RoundTripProofs.
+From AV Require Import Core.Json Deser.Model Deser.Spec Ser.Model Ser.Spec Ser.RoundTrip Ser.RoundTripProofs Ser.RoundTripInd.
 Import ListNotations.
 
 (* values of type Any: the JSON value built from any JSON datum reads back as the same datum *)
 Theorem C05_any_data_round_trip : forall d, is_json_data d = true -> unembed (embed d) = Some d.
 Proof. exact unembed_embed. Qed.
 Print Assumptions C05_any_data_round_trip.
+
+(* THE ROUND TRIP on the declarative specifications (Ser/Spec.v: image = what serialize produces, Deser/Spec.v: spec = what
+   deserialize accepts and builds; both tied to the implementation by C04 / C01).  For every universe, options, bound n on the
+   nesting of classes, every type of the fragment
+     primitives, List, Tuple[X, ...], Tuple[X, Y], Dict[str, X], Literal, Enum,
+     unions whose alternatives accept pairwise disjoint classes of JSON data (Optional[X], Union[int, str, List[X]], ...),
+     dataclasses / NamedTuples (recursive ones included) whose fields carry no skip option, constraint or Undefined,
+     serialized in declaration order without exclude_none / exclude_defaults          (rt_univ; none needed without classes)
+   and every well-typed value whose instances hold exactly their fields (canonical):
+   the value serializes to some JSON j, and j deserializes back to that very value. *)
+Theorem C05_round_trip :
+  forall u o n t v,
+  rt_ty u t = true -> ctx_ok u o t -> has_type u n t v = true -> canonical u v = true ->
+  exists j d, image u o (S n) t v = SROk j /\ unembed j = Some d /\ spec u (dopts_of o) (S n) None t d = SOk v.
+Proof. exact round_trip. Qed.
+Print Assumptions C05_round_trip.
+
+(* the same with executable hypotheses only (what the harness evaluates on every generated case) *)
+Theorem C05_round_trip_checked :
+  forall u o n t v, rt_hyps u o n t v = true ->
+  exists j d, image u o (S n) t v = SROk j /\ unembed j = Some d /\ spec u (dopts_of o) (S n) None t d = SOk v.
+Proof. exact round_trip_checked. Qed.
+Print Assumptions C05_round_trip_checked.
+
+(* the hypotheses hold for a recursive dataclass with an Optional reference to itself, a list, an enum, a tuple and a mapping of
+   unions, under a dynamic aliaser *)
+Theorem C05_hypotheses_satisfiable : rt_hyps rt_ex_univ rt_ex_opts 2 (TObj 0) rt_ex_value = true.
+Proof. exact rt_ex_hyps. Qed.
+Print Assumptions C05_hypotheses_satisfiable.
